@@ -8,7 +8,7 @@ Streams
             `mockery showconfig` vs the loader model (key / shape sets per level).
   malformed undecodable / wrong-typed v2 files: error exit, nothing written, never a Go panic.
 """
-import hashlib, json, os, shutil
+import hashlib, json, os, re, shutil, time
 import yaml
 from common import *
 
@@ -141,12 +141,11 @@ def new_hist():
     return h
 
 
-def gen_tree(rng, hist, kind=None):
+def gen_tree(rng, hist, kind=None, single=None):
     kind = kind or rng.choice(["sparse", "sparse", "medium", "medium", "dense", "full", "empty", "anchors", "single"])
     bump(hist["kind"], kind)
     p = {"sparse": 0.1, "medium": 0.4, "dense": 0.85, "full": 1.0, "empty": 0.0, "anchors": 0.2, "single": 0.0}[kind]
-    single = None
-    if kind == "single":
+    if kind == "single" and single is None:
         single = (rng.choice(LEVELS), rng.choice([k for k, _, _ in V2KEYS]))
     lv = [0]
 
@@ -462,6 +461,13 @@ def oracle(v2, v3, obs):
 
 # ---------------------------------------------------------------------------------------------
 # Gallina printers
+def coq_bytes(b):
+    """explicit byte list: coqc elaborates it ~13x faster than the `B "..."` string notation"""
+    if isinstance(b, str):
+        b = b.encode()
+    return "[" + ";".join("x%02x" % c for c in b) + "]"
+
+
 def yv_term(v):
     if v is None: return "YNull"
     if isinstance(v, bool): return "YBool %s" % coq_bool(v)
@@ -647,7 +653,8 @@ def mutate_v3(rng, t, hist):
     # keep the stream outside other properties' loader defects (see NOTES/C19.md)
     for _, n in cfg_nodes(t):
         n.pop("recursive", None)
-    kind = rng.choice(["none", "valid-key", "foreign-key", "wrong-shape", "struct-key", "null-node", "null-sub", "struct-shape"])
+    kind = rng.choice(["none", "valid-key", "foreign-key", "wrong-shape", "struct-key", "null-node", "null-sub", "struct-shape",
+                       "case-variant", "case-duplicate"])
     bump(hist, kind)
     nodes = list(cfg_nodes(t))
     path, node = rng.choice(nodes)
@@ -662,6 +669,26 @@ def mutate_v3(rng, t, hist):
     elif kind == "wrong-shape":
         k = rng.choice([k for k in V3_CFG_KEYS if k != "recursive"])
         node[k] = rng.choice(WRONG)
+    elif kind in ("case-variant", "case-duplicate"):
+        # mapstructure folds letter case; a second spelling of the same field (or, at the top level, of a
+        # key the defaults already have) is an unused key
+        cands = [(path, node)] + [((), t)]
+        for pn, pk in t["packages"].items():
+            if isinstance(pk, dict):
+                cands.append((("packages", pn), pk))
+                for iname, ic in (pk.get("interfaces") or {}).items():
+                    if isinstance(ic, dict):
+                        cands.append((("packages", pn, "interfaces", iname), ic))
+        cpath, cnode = rng.choice(cands)
+        if not cnode:
+            cnode["dir" if cpath == () or cpath[-1] in ("config",) or isinstance(cpath[-1], int) else "config"] = "d" if cpath == () or cpath[-1] == "config" or isinstance(cpath[-1], int) else {}
+        k = rng.choice(list(cnode))
+        variant = rng.choice([k.upper(), k.title(), k[:1].upper() + k[1:]])
+        if variant != k:
+            if kind == "case-variant":
+                cnode[variant] = cnode.pop(k)
+            else:
+                cnode[variant] = json.loads(json.dumps(cnode[k]))
     elif kind in ("struct-key", "struct-shape", "null-node", "null-sub"):
         pn = rng.choice(list(t["packages"]))
         pk = t["packages"][pn]
@@ -807,6 +834,48 @@ def run_malformed(ctx, idx, m):
 
 
 # ---------------------------------------------------------------------------------------------
+# known finding C19-merge-key: witness stream
+def has_merge(v2):
+    """Python mirror of the Coq guard [v2_merge_free] (the Coq evaluation is authoritative)"""
+    def anyv(v):
+        if isinstance(v, dict):
+            return any(k == MERGE or anyv(x) for k, x in v.items())
+        if isinstance(v, list):
+            return any(anyv(x) for x in v)
+        return False
+    for _, c in levels_of(v2 or {}):
+        if isinstance(c, dict) and anyv(c.get("_anchors")):
+            return True
+    for pn, pk in ((v2 or {}).get("packages") or {}).items():
+        if pn == MERGE or any(i == MERGE for i in ((pk or {}).get("interfaces") or {})):
+            return True
+    return False
+
+
+def witness_inputs(rng):
+    w = [
+        {"packages": {"p": {"interfaces": {MERGE: {}}}}},                       # C19_names_preserved_refuted
+        {"packages": {"p": {"interfaces": {MERGE: {"configs": [{}]}}}}},
+        {"packages": {"p": {"interfaces": {MERGE: {"config": {"all": True}}, "I": None}}}},
+        {"packages": {MERGE: {"config": {"all": True}}}},
+        {"packages": {MERGE: None, "q": None}},
+        # (below the top level: independent of the loader's handling of a top-level `_anchors`)
+        {"packages": {"q": {"config": {"_anchors": {MERGE: 65536}}}}},
+        {"packages": {"q": {"config": {"_anchors": {MERGE: {"a": 1}, "b": 2}}}}},
+        {"packages": {"q": {"interfaces": {"I": {"config": {"_anchors": {"x": {MERGE: [{"a": 1}, {"a": 2, "c": 3}]}}}}}}}},
+        {"packages": {"p": {"config": {"_anchors": {MERGE: "s"}}}}},
+        {"packages": {"p": {"interfaces": {"I": {"configs": [{"_anchors": {MERGE: {"k": None}}}]}}}}},
+    ]
+    for _ in range(4):
+        t = json.loads(json.dumps(gen_tree(rng, new_hist(), "sparse")))
+        t.pop("_anchors", None)
+        pk = t.setdefault("packages", None) or {}
+        t["packages"] = pk
+        pk["example.com/w"] = {"interfaces": {MERGE: {"configs": [{"mockname": "W"}]}, "Keep": {}}}
+        w.append(t)
+    return w
+
+
 def corpus():
     d = VERIF / "corpus" / "C19"
     return [(f.name, f.read_text()) for f in sorted(d.glob("*.yml"))] if d.exists() else []
@@ -819,10 +888,16 @@ def summarize(v2):
 
 
 def check(ctx, only=None):
+    phase, t_ph = {}, [time.time()]
+    def mark(name):
+        phase[name] = round(time.time() - t_ph[0], 1)
+        t_ph[0] = time.time()
     gate = proof_gate(ctx)
+    mark("proof_gate")
     if not ctx.build_tree():
         ctx.write_evidence(gate, 0, 0, "build failed", [])
         return
+    mark("build")
     rng = ctx.rng
     hist = new_hist()
     scale = 10 if ctx.thorough() else 1
@@ -834,12 +909,15 @@ def check(ctx, only=None):
         for name, text in corpus():
             inputs.append(("corpus:" + name, text, "explicit", None))
         n_main = 420 * scale
-        # every (level, key) pair alone, round-robin over the runs of a seed
+        # exactly one key at exactly one level: the 46 x 4 pairs round-robin, starting at a seeded offset
+        # (60 per quick run, all 184 three times over in a thorough run)
+        allpairs = [(l, k) for l in LEVELS for k, _, _ in V2KEYS]
+        off = rng.randrange(len(allpairs))
         for i in range(n_main):
-            kind = None
+            kind, single = None, None
             if i % 7 == 0:
-                kind = "single"
-            tree = gen_tree(rng, hist, kind)
+                kind, single = "single", allpairs[(off + i // 7) % len(allpairs)]
+            tree = gen_tree(rng, hist, kind, single)
             text = dump_yaml(rng, tree, hist)
             cli = rng.choice(["explicit"] * 6 + ["default-out", "search"])
             pre = rng.choice([None, None, None, b"stale: content\n" * 200, b""])
@@ -847,6 +925,7 @@ def check(ctx, only=None):
             inputs.append(("gen%d" % i, text, cli, pre))
     parsed = [load_yaml(t) for _, t, _, _ in inputs]
     obs = pmap(lambda a: run_case(ctx, a[0], a[1][1], a[1][2], a[1][3]), list(enumerate(inputs)))
+    mark("main_run")
     outs, oracle_fail, terms, term_idx = [], {}, [], []
     for i, ((label, text, cli, pre), v2, o) in enumerate(zip(inputs, parsed, obs)):
         v3 = None
@@ -860,6 +939,8 @@ def check(ctx, only=None):
         e += oracle(v2, v3, o)
         if e:
             oracle_fail[i] = e
+        if has_merge(v2) and not e:
+            oracle_fail[i] = e = ["harness: main-stream input inside known-finding class C19-merge-key"]
         try:
             terms.append(case_term(v2, o, v3))
             term_idx.append(i)
@@ -868,6 +949,7 @@ def check(ctx, only=None):
                 oracle_fail[i] = ["harness: case not representable in the model: %s" % ex]
     bad, errs = coq_mismatches(ctx, H, terms, shard=40)
     bad = [term_idx[b] for b in bad]
+    mark("main_oracle_and_coq")
 
     # ---------------- loader stream
     lhist = {}
@@ -891,6 +973,7 @@ def check(ctx, only=None):
     for o in l_obs:
         bump(l_outcomes, o)
 
+    mark("loader_stream")
     # ---------------- malformed stream
     mhist, m_outcomes, m_fail = {}, {}, []
     mal = malformed_cases(rng, mhist, 52 * scale) if only is None else []
@@ -909,6 +992,49 @@ def check(ctx, only=None):
         bad += [-1 - b for b in d_bad]
         errs += d_errs
 
+    mark("malformed_stream")
+    # ---------------- witness stream of the known findings
+    w_problems = []
+    known = load_known("C19") if only is None else []
+    for kf in known:
+        if kf["id"] != "C19-merge-key":
+            continue
+        wins = witness_inputs(rng)
+        wtexts = [dump(t, sort_keys=False, default_flow_style=False) for t in wins]
+        wobs = pmap(lambda a: run_case(ctx, a[0], a[1], stream="witness"), list(enumerate(wtexts)))
+        wterms, shown = [], 0
+        for t, text, o in zip(wins, wtexts, wobs):
+            v3, e = None, []
+            if o["out_text"] is not None:
+                try:
+                    v3 = load_yaml(o["out_text"])
+                except yaml.YAMLError as ex:
+                    e.append("output is not parseable YAML: %s" % str(ex)[:200])
+            e += oracle(load_yaml(text), v3, o)
+            if not has_merge(t):
+                w_problems.append({"v2_yaml": text, "problem": "harness: witness input outside the class"})
+            elif not e:
+                w_problems.append({"v2_yaml": text, "problem": "the listed symptom no longer appears (fixed? then move the finding to `fixed`)"})
+            elif not re.fullmatch(kf["symptom"], category(e)):
+                w_problems.append({"v2_yaml": text, "problem": "another symptom than listed: %s" % e[:2]})
+            else:
+                shown += 1
+            wterms.append(case_term(t, o, v3))
+        wb, we = coq_mismatches(ctx, H, wterms, shard=40, check="wmismatches")
+        for b in wb:
+            w_problems.append({"v2_yaml": wtexts[b], "v3_yaml": wobs[b]["out_text"], "showconfig": wobs[b]["load"],
+                               "problem": "Coq: input not in the guard class, or the file read back / the loader verdict differs from the encoder-reader model [reread]"})
+        if we:
+            w_problems.append({"problem": "coqc failed on the witness cases", "errors": we})
+        if shown:
+            ctx.known("%s: a mapping key `<<` (package name, interface name, `_anchors` key) is written unquoted and read back as a merge key "
+                      "- names / values are not preserved or the file does not load (%d/%d witness inputs show the listed symptom)" % (kf["id"], shown, len(wins)))
+    if w_problems:
+        rp = ctx.write_replay("known-finding-witness", {"what": "witness stream of a listed known finding does not behave as listed", "problems": w_problems[:6],
+                                                         "v2_yaml": w_problems[0].get("v2_yaml")})
+        ctx.violation(rp)
+
+    mark("witness_stream")
     # ---------------- classification
     reported = set()
     for i in sorted(oracle_fail):
@@ -983,7 +1109,7 @@ def check(ctx, only=None):
         "0-3 interfaces, 0-3 configs entries, null nodes, aliased configs; written by PyYAML in block/flow style with shuffled keys. "
         "non-trivial = a mapped key is set at two or more levels; distinct by v2 file text. evaluations = main + loader-stream + malformed cases.",
         samples,
-        extra={"input_histogram": hist, "mapped_key_level_pairs_covered": len(pairs), "mapped_key_level_pairs_possible": len(MAPPED) * 4,
+        extra={"phase_seconds": phase, "input_histogram": hist, "mapped_key_level_pairs_covered": len(pairs), "mapped_key_level_pairs_possible": len(MAPPED) * 4,
                "mapped_key_by_level": {"%s/%s" % k: v for k, v in sorted(pairs.items())},
                "main_cases": len(inputs), "model_cases_evaluated": len(terms), "model_mismatches": len(bad), "oracle_failures": len(oracle_fail),
                "migrate_exit_classes": count(o["exit"] for o in obs), "showconfig_exit_classes": count(str(o["load"]) for o in obs),
